@@ -74,6 +74,7 @@ CHECKS['C03'] = {
     'unproved': ['evaluate arms FunctionCall for regexp_matches, array, array_unique, now, EXTRACT(EPOCH), date_trunc', 'parser_tree_converter::transform_expression arms IN / Call / CASE (closures capturing the lowering state), extract_aggregate (recursive in-place swap)'],
 }
 CHECKS['C09'] = {
+    'grid': {'sets': ['c09'], 'bound': '68 expressions / functions and 24 aggregates x 26 lines of extreme data (64-bit ends, NaN / infinities, zero divisors, huge and negative subscripts, absent groups, NULLs, out-of-range and DST-gap date parts, malformed JSON, non-text bytes) x text / JSON / CSV output, lines alone, in pairs and all together (about 7300 runs); the only oracle is: no panic'},
     'verus_units': ['eval', 'follow', 'select', 'engine', 'extract', 'parser', 'tokenizer', 'converter', 'valuetype', 'output', 'executor', 'aggregate', 'aggdispatch', 'aggresult', 'join', 'joinload', 'mapping'],
     'only_safety': True,
     'clause_prefixes': ['c09'],
@@ -143,6 +144,7 @@ CHECKS['C11'] = {
 }
 
 CHECKS['C01'] = {
+    'grid': {'sets': ['c01'], 'bound': '14 column definitions (TEXT / INT / REAL / BOOLEAN, DEFAULT, whole match, TEXT[] array, TRIM, 3- and 6-part TIMESTAMP, split fields) over 3 capture patterns, a split pattern and an inline pattern x 32 lines (partial and no match, empty groups, 64-bit extremes and beyond, out-of-range date parts, two matches on a line, padding), each line alone and all lines as one file (about 490 cases); oracle = the regex crate on the line + the conversion rules of the statement'},
     'verus_units': ['extract', 'valuetype', 'parser', 'converter'],
     'clause_prefixes': ['c01'],
     'technique': 'contract-based deductive verification (Verus): ColumnParsing::extract_using_regex, the Regex / MultiRegex-array / MultiRegex-timestamp arms of ColumnParsing::extract, ColumnDefinition::default_value and TableDefinition::extract extracted from /repo against a specification of "the referenced group of the referenced pattern, typed"',
